@@ -353,6 +353,7 @@ class Configuration(_Configuration):
 
         self._neighbors: dict[str, Any] = {}
         self._previous_neighbors: dict[str, Any] = {}
+        self._previous_processes: dict[str, Any] = {}
 
     @classmethod
     def from_settings(cls, settings: 'ConfigurationSettings') -> 'Configuration':
@@ -485,6 +486,7 @@ class Configuration(_Configuration):
         return self.parser.tokeniser
 
     def _clear(self) -> None:
+        self._previous_processes = self.processes
         self.processes = {}
         self._previous_neighbors = self.neighbors
         self.neighbors = {}
@@ -523,9 +525,13 @@ class Configuration(_Configuration):
 
     def _rollback_reload(self) -> None:
         self.neighbors = self._previous_neighbors
-        self.processes = self.process.processes
+        # the API processes of the running configuration, like its neighbors: what the refused
+        # file defined before its fault is handed to Processes.start() by the main loop, which
+        # terminates every running process missing from it
+        self.processes = self._previous_processes
         self._neighbors = {}
         self._previous_neighbors = {}
+        self._previous_processes = {}
 
     def _commit_reload(self) -> None:
         # the whole file is accepted: the neighbors may now touch the RIB they share with the running sessions
@@ -542,6 +548,7 @@ class Configuration(_Configuration):
                 self.neighbors[neighbor].previous = self._previous_neighbors[neighbor]
 
         self._previous_neighbors = {}
+        self._previous_processes = {}
         self._cleanup()
 
     def reload(self) -> bool:
